@@ -42,7 +42,7 @@ RULE_GLOSS = {
     "O": "StreamOutcome: processed ids pushed at dequeue, stored unchanged, complement in node order, state from the countdown",
     "O3b": "the countdown is decremented exactly once per handed-out item on every path", "O4": "control wrappers map Finished/no-break to Continue",
     "O5": "every outcome comes from StreamOutcome::new", "O6": "the user's function is called for every dequeued id",
-    "P1": "panic-site inventory of build()", "P2": "no unwrap/expect on the holder of a protocol sender",
+    "O7": "map / replace / replace_with hand state and id lists on unchanged; accessors return their field", "P1": "panic-site inventory of build()", "P1a": "panic-site inventory of the builder's other public methods (an accepted function or edge cannot panic)", "P2": "no unwrap/expect on the holder of a protocol sender",
     "Q": "sequential APIs: Topo over the right structure, ids index self.graph unchanged, callback for every item, first error returned, iter_insertion over the node storage",
     "Q6": "FnGraph::clone copies field by field", "R1": "the conflict predicate compares exactly read x write, write x read, write x write of the two endpoints, existentially, as a disjunction",
     "R2": "only identity / has_path / seen-flag guards stand between pair enumeration and insertion; no per-element early exit",
@@ -77,7 +77,7 @@ prop("C02",
      [("S1", S.S1, K01, {}), ("S2", S.S2, K01, {}), ("S3", S.S3, K01, {}), ("S4", S.S4, K01, {}), ("S5", S.S5, K01, {}),
       ("L2", lambda ctx: __import__("rules_run").L2(ctx), K01, {}), ("L6", R.L6, K01, {}),
       ("B1", S.opts_frame, K01, {"fields": ("StreamOrder",)}), ("B2", S.order_wiring, K01, {}),
-      ("R3", B.R3, ("K0",), {"parts": ("structures", "counts")}), ("E", B.C16_rules, ("K0",), {}), ("ID", B.ID_rules, ("K0",), {}), ("Q6", R.clone_frame, ("K0",), {})],
+      ("R3", B.R3, ("K0",), {"parts": ("structures", "counts")}), ("E", B.C16_rules, ("K0",), {}), ("ID", B.ID_rules, ("K0",), {}), ("Q6", R.clone_frame, ("K0",), {}), ("W1", B.W1, ("K0",), {})],
      K01,
      "Decides the scheduler premises S1-S5 (and L2: each fold step returns its state only after the user future's Ready arm) on the MIR of every streaming path: counts/structure pairing chain "
      "(in-degree with forward structure, out-degree with reversed structure, build() orientation, StreamOpts::rev/default), "
@@ -164,7 +164,7 @@ prop("C06",
 prop("C11",
      [("R3", B.R3, K04, {"parts": ("graph-field",)}), ("W1", B.W1, K04, {}), ("B3", B.B3, K04, {}), ("R2", B.R2, K04, {"strict_order": True}),
       ("R1", B.R1, K04, {}), ("K", B.C13_rules, K04, {}), ("P1", B.P1, K04, {}), ("E", B.C16_rules, K04, {}),
-      ("ID", B.ID_rules, K04, {}), ("R6", B.D2_coverage, K04, {}), ("R7", B.R7, K04, {}), ("N", ST.N_rules, ("K0",), {}), ("D1", B.D1, K04, {})],
+      ("ID", B.ID_rules, K04, {}), ("R6", B.D2_coverage, K04, {}), ("R7", B.R7, K04, {}), ("N", ST.N_rules, ("K0",), {}), ("D1", B.D1, K04, {}), ("C18.loops", B.C18_loops, K04, {})],
      K04,
      "Decides B1 (phase order: ranks, then augmentation, then counts and structure copies, all on the same graph which becomes FnGraph.graph), "
      "B2 (no add_node/remove/clear/retain reaches the user's Dag from build()), B3 (the only added edge is Edge::Data, control dependent on "
@@ -191,7 +191,7 @@ prop("C12",
 
 prop("C13",
      [("K", B.C13_rules, K04, {}), ("R3", B.R3, K04, {"parts": ("ranks",)}), ("E", B.C16_rules, K04, {}), ("ID", B.ID_rules, K04, {}),
-      ("K7", lambda ctx: B.rank_ord_rule(ctx, "K7"), K04, {}), ("P1", B.P1, K04, {})],
+      ("K7", lambda ctx: B.rank_ord_rule(ctx, "K7"), K04, {}), ("P1", B.P1, K04, {}), ("Q6", R.clone_frame, K04, {})],
      K04,
      "Decides K1 (ranks start as Rank(0) x node_count), K2 (the work queue is seeded with exactly the parent-less nodes), K3 (every store to "
      "ranks[child] is ranks[parent]+1 - constant 1 through Rank: Add<usize>, whose body adds the fields - merged by max or guarded by candidate > existing), "
@@ -202,7 +202,8 @@ prop("C13",
 
 prop("C16",
      [("E", B.C16_rules, ("K0", "K4"), {}), ("W1", B.W1, ("K0", "K4"), {}), ("R2", B.R2, ("K0", "K4"), {"strict_order": True}),
-      ("B3", B.B3, ("K0", "K4"), {}), ("N", ST.N_rules, ("K0",), {}), ("ID", B.ID_rules, ("K0", "K4"), {})],
+      ("B3", B.B3, ("K0", "K4"), {}), ("N", ST.N_rules, ("K0",), {}), ("ID", B.ID_rules, ("K0", "K4"), {}),
+      ("P1a", B.P1, ("K0", "K4"), {"rule": "P1a", "scope": "api"})],
      ("K0", "K4"),
      "Decides E1 (add_logic_edge/add_contains_edge perform exactly one daggy::Dag::update_edge(from, to, const Logic|Contains) - directly or through crate-local helpers whose parameters are "
      "resolved at their call site - with the result returned unchanged), E2 (batch forms perform that same insertion once per element in array order, with the kind their name says, stop at and return the first error), "
@@ -226,8 +227,8 @@ prop("C07",
       ("B1", S.opts_frame, K01, {"fields": ("StreamOrder",)}), ("B2", S.order_wiring, K01, {}),
       ("R2", B.R2, ("K0",), {"strict_order": False}), ("R3", B.R3, ("K0",), {"parts": ("structures", "counts")}), ("S1", S.S1, K01, {}), ("R6", B.D2_coverage, ("K0",), {}), ("R1", B.R1, ("K0",), {}), ("R7", B.R7, ("K0",), {}), ("ID", B.ID_rules, ("K0",), {}), ("E", B.C16_rules, ("K0",), {}),
       ("A1", T.A1, K01, {}), ("N7", B.N7, K01, {}), ("L5", R.L5, K01, {}), ("P2", T.P2, K01, {}), ("T5", T.T5, K01, {}),
-      ("S2", S.S2, K01, {}), ("S3", S.S3, K01, {})],
-     K01,
+      ("S2", S.S2, K01, {}), ("S3", S.S3, K01, {}), ("R5", B.R5, ("K0", "K3"), {})],
+     ("K0", "K1", "K3"),
      "Decides F1 (on the Err arm of the user future exactly one awaited send on the RESULT channel carries that error), F2 (from the Err arm every "
      "path to the done-send passes through the release of the done-sender), F3 (RESULT capacity monotone in node_count; its receiver is drained only "
      "after the join; Err((outcome, errors)) iff the collected vector is non-empty, unchanged), F4 (control adapters map Continue->Ok, Break(e)->Err(e)), "
@@ -249,7 +250,7 @@ prop("C08",
      "THE NUMERIC BOUNDS THEMSELVES (<= 1 / <= n more, pending-signal cases, PollNextN(0)): they are the state machine of interruptible::InterruptibleStream in another crate; fn_graph only wires it")
 
 prop("C09",
-     [("O", R.O_rules, K01, {}), ("O3b", R.O3b, K01, {}), ("S5", S.S5, K01, {}), ("I2", R.I2_rule, ("K1",), {}), ("O5", R.O5, K01, {}), ("O6", R.O6, K01, {}), ("S6b", S.S6b_bitsets, K01, {}), ("F", R.F_rules, K01, {})],
+     [("O", R.O_rules, K01, {}), ("O3b", R.O3b, K01, {}), ("S5", S.S5, K01, {}), ("I2", R.I2_rule, ("K1",), {}), ("O5", R.O5, K01, {}), ("O6", R.O6, K01, {}), ("S6b", S.S6b_bitsets, K01, {}), ("F", R.F_rules, K01, {}), ("O7", R.O7, K01, {})],
      K01,
      "Decides O1 (the only pushes to fn_ids_processed happen in the ready-stream adaptors, with the id dequeued from READY, once per dequeue, not in per-item bodies), "
      "O2 (StreamOutcome::new stores processed/state unchanged and computes not-processed as the node-order filter !processed.contains(id) over all nodes of the walked structure; "
@@ -295,7 +296,7 @@ prop("C17",
 SERDE_DEP = 'serde = { version = "1", features = ["derive"] }'
 
 prop("C15",
-     [("N", ST.N_rules, K01, {}), ("D3", B.D3, K0, {}), ("N6", B.N6, K01, {}), ("U1", T.U1, K01, {})],
+     [("N", ST.N_rules, K01, {}), ("D3", B.D3, K0, {}), ("N6", B.N6, K01, {}), ("U1", T.U1, K01, {}), ("A1", T.A1, K01, {})],
      K01,
      "Whole-property static argument (non-interference): N1 nothing reachable through &FnGraph<F> other than F contains an UnsafeCell (explicit deep type walk: "
      "fields, generic arguments, pointees, normalised projections); N2 no hand-written unsafe block and no unsafe impl other than IndexType for FnIdInner (identity wrapper); "
